@@ -80,6 +80,57 @@ CHECKS = {
         technique='Coq proof by induction over the chunk list + model/implementation correspondence by vm_compute',
         design_ref='DESIGN.md section 6, C06',
         note=COMMON_NOTE + ' Command-set bytes are taken from the implementation (pydicom) and are a parameter of the theorem.'),
+    'C07': dict(
+        text=('Theorem C07_reassembly (Coq, no axioms): for EVERY well-formed message (command set read by the strict '
+              'implicit-VR-LE reader, command field in MESSAGE_TYPE, CommandDataSetType = 0101H iff no data set), EVERY data '
+              'set, EVERY maximum length (0 or >= 7) and EVERY grouping of the fragments produced by DIMSEMessage.encode '
+              'into P-DATA-TF PDUs, the model of fsm.DIMSEDecoder reports still-receiving after every PDU but the last and '
+              'then delivers the message of the right type and context with identical command set and data bytes (in '
+              'memory, or after the meta header in the storage file). Tie: real DIMSEDecoder fed with real PDUs for every '
+              'composition of the fragment list of messages of all 23 classes (in-memory and file-backed, files re-read '
+              'with pydicom) vs the model; MESSAGE_TYPE tabulated and checked against PS3.7.'),
+        technique='Coq proof (non-breaking-run invariant + grouping lemma by induction) + model/implementation correspondence',
+        design_ref='DESIGN.md section 6, C07',
+        note=COMMON_NOTE + ' Command sets are modelled by a strict reader; inputs only pydicom\'s lenient reader accepts are outside the model.'),
+    'C08': dict(
+        text=('Theorems C08_every_send / C08_readable (Coq, no axioms): Model.CmdMsg is the message object (elements by '
+              'ascending tag, property setters, data_set setter, set_length, implicit-VR-LE encoding with VR padding); for '
+              'EVERY message type, EVERY sequence of field assignments, data-set assignments and sends, every transmitted '
+              'command set is in ascending tag order, starts with Command Group Length = number of bytes that follow, '
+              'carries the class\'s command field, says 0101H exactly when no data set is attached, and is read back by '
+              'the strict reader. Tie: real message objects driven through Association.send with the generators consumed '
+              'after later mutations: model bytes = transmitted bytes, plus the independent reader\'s verdict.'),
+        technique='Coq proof by induction over operation sequences (sortedness + flag invariant) + byte-exact correspondence',
+        design_ref='DESIGN.md section 6, C08',
+        note=COMMON_NOTE + ' pydicom\'s value encoding for UI/US/AE/AT/UL is mirrored by Model.CmdMsg.enc_value and validated byte for byte.'),
+    'C09': dict(
+        text=('Theorems C09_reply_shape, C09_same_ids_same_order, C09_each_answer, C09_served_is_accepted (Coq, no axioms): '
+              'for EVERY configuration and EVERY request with any number of proposed contexts the model of '
+              'AssociationAcceptor.accept answers each context once, same id, same order; accepted iff served and a proposed '
+              'transfer syntax is supported; the returned syntax is proposed and supported; the served table is exactly the '
+              'accepted answers; AE titles and application context are repeated. Tie: real accept() and _loop dispatch on '
+              'exhaustive small requests x configurations + seeded large ones: model = implementation, oracle on the reply.'),
+        technique='Coq proof by induction over the proposal list + exhaustive small-scope correspondence',
+        design_ref='DESIGN.md section 6, C09',
+        note=COMMON_NOTE),
+    'C10': dict(
+        text=('Theorems C10_negotiation, C10_every_message_within (Coq, no axioms): for ALL pairs of configured maxima '
+              '(0 or >= 7) each side announces at most what it accepts, each side\'s sending limit is within the peer\'s '
+              'announcement (0 restricts nothing), and with that limit EVERY message of any size is sent completely with '
+              'every P-DATA-TF within the announcement (composition with C06). Tie: real requester + acceptor over the '
+              'boundary grid squared, both sides sending messages around the fragment size, every PDU measured.'),
+        technique='Coq proof (case analysis + lia, composed with the C06 fragmentation theorem) + grid correspondence',
+        design_ref='DESIGN.md section 6, C10',
+        note=COMMON_NOTE),
+    'C11': dict(
+        text=('Theorems C11_contexts, C11_ids, C11_ids_fit_iff_at_most_128, C11_usable, C11_lookup (Coq, no axioms): for '
+              'EVERY sequence of add_scu/add_scp calls the configured contexts are the classes in order with ids 1,3,5,... '
+              '(distinct, odd), fitting one byte iff at most 128 classes (known finding D17 beyond); usable contexts = '
+              'accepted among proposed with the chosen syntax; a service is obtained iff such a context exists. Tie: real AE '
+              'configuration, AssociationRequester.request with stubbed replies (exhaustive for <= 3 contexts), get_scu.'),
+        technique='Coq proof by induction over call/class lists + exhaustive small-scope correspondence',
+        design_ref='DESIGN.md section 6, C11',
+        note=COMMON_NOTE + ' Known finding D17 (more than 128 classes) is reported as KNOWN-FINDING.'),
     'C12': dict(
         text=('Theorems C12_never_crashes, C12_decode_total, C12_bad_pdu_aborted, C12_bad_pdata_aborted, C12_user_told, '
               'C12_closed_after_peer_close, C12_own_pdus_wellformed (Coq, no axioms): in the control model the peer\'s bytes '
